@@ -184,10 +184,12 @@ def check(R, F, P, cfg):
         for bi, b in enumerate(f.blocks):
             for s in b["stmts"]:
                 if s["k"] == "assign" and any(isinstance(e, dict) and e.get("n") == "bytes_threshold" for e in s["place"]["p"]):
-                    writers.setdefault(root_of(P, f).npath, []).append((f, bi, s))
+                    for o_ in lift_owner(P, f):       # private helpers of adjust count as adjust
+                        writers.setdefault(o_, []).append((f, bi, s))
                 if s["k"] == "assign" and s["rv"]["k"] == "agg" and s["rv"].get("adt") == "config::Config":
-                    writers.setdefault(root_of(P, f).npath, []).append((f, bi, s))
-    ok = set(writers) <= {"config::Config::adjust", "config::Config::new", "<config::Config as std::clone::Clone>::clone"} and "config::Config::adjust" in writers
+                    for o_ in lift_owner(P, f):
+                        writers.setdefault(o_, []).append((f, bi, s))
+    ok = set(writers) <= {"config::Config::adjust", "config::Config::new", "<config::Config as std::clone::Clone>::clone", "<config::Config as std::default::Default>::default"} and "config::Config::adjust" in writers
     R.inst("R15.3", "who-writes-threshold", ok, "bytes_threshold is written in %s" % sorted(writers), cfg=cfg)
     cn = anchor(F, "config::Config::new")
     Sn = Super(P, cn, opaque=DO)
